@@ -167,37 +167,182 @@ func (f *Formula) Assign(atom string, val bool) *Formula {
 	return FOr(as...)
 }
 
-// Compare decides by truth table whether f and g are equivalent. It returns the atoms on which they
+// cmpAtom is an atom of the form  subj == k,  k < subj,  subj < k,  k <= subj,  subj <= k  (k an integer
+// constant). Atoms over the same subject are not independent; Compare enumerates values of the subject for
+// them instead of independent truth values.
+type cmpAtom struct {
+	subj      string
+	op        string
+	k         int64
+	constLeft bool
+}
+
+func parseCmp(t *Term) (cmpAtom, bool) {
+	if t == nil || t.Op != "bin" || len(t.Args) != 2 {
+		return cmpAtom{}, false
+	}
+	switch t.Val {
+	case "==", "<", "<=":
+	default:
+		return cmpAtom{}, false
+	}
+	isInt := func(x *Term) (int64, bool) {
+		if x.Op != "const" {
+			return 0, false
+		}
+		var k int64
+		if _, err := fmt.Sscanf(x.Val, "%d", &k); err != nil || fmt.Sprint(k) != x.Val {
+			return 0, false
+		}
+		return k, true
+	}
+	if k, ok := isInt(t.Args[1]); ok {
+		if _, both := isInt(t.Args[0]); both {
+			return cmpAtom{}, false
+		}
+		return cmpAtom{subj: t.Args[0].String(), op: t.Val, k: k}, true
+	}
+	if k, ok := isInt(t.Args[0]); ok {
+		return cmpAtom{subj: t.Args[1].String(), op: t.Val, k: k, constLeft: true}, true
+	}
+	return cmpAtom{}, false
+}
+
+func (c cmpAtom) eval(v int64) bool {
+	l, r := v, c.k
+	if c.constLeft {
+		l, r = c.k, v
+	}
+	switch c.op {
+	case "==":
+		return l == r
+	case "<":
+		return l < r
+	}
+	return l <= r
+}
+
+// Compare decides whether f and g are equivalent. Independent atoms are enumerated by truth value; atoms
+// that compare one subject term with integer constants are enumerated by value of the subject (the
+// constants and their neighbours), which is exact for such comparisons. It returns the atoms on which they
 // were compared and, when they differ, one distinguishing assignment.
 func Compare(f, g *Formula) (equal bool, witness string, atoms []string) {
-	set := map[string]bool{}
-	for a := range f.Atoms() {
-		set[a] = true
+	terms := map[string]*Term{}
+	for a, t := range f.Atoms() {
+		terms[a] = t
 	}
-	for a := range g.Atoms() {
-		set[a] = true
+	for a, t := range g.Atoms() {
+		if _, ok := terms[a]; !ok || terms[a] == nil {
+			terms[a] = t
+		}
 	}
-	for a := range set {
+	for a := range terms {
 		atoms = append(atoms, a)
 	}
 	sort.Strings(atoms)
-	if len(atoms) > 16 {
+	groups := map[string][]string{}
+	parsed := map[string]cmpAtom{}
+	for _, a := range atoms {
+		if c, ok := parseCmp(terms[a]); ok {
+			parsed[a] = c
+			groups[c.subj] = append(groups[c.subj], a)
+		}
+	}
+	var free []string
+	var subjects []string
+	for _, a := range atoms {
+		c, ok := parsed[a]
+		if ok && len(groups[c.subj]) >= 2 {
+			continue
+		}
+		free = append(free, a)
+	}
+	for sname, as := range groups {
+		if len(as) >= 2 {
+			subjects = append(subjects, sname)
+		}
+	}
+	sort.Strings(subjects)
+	cands := map[string][]int64{}
+	total := 1 << uint(len(free))
+	if len(free) > 16 {
 		return false, "too many atoms", atoms
 	}
-	as := map[string]bool{}
-	for m := 0; m < 1<<uint(len(atoms)); m++ {
-		for i, a := range atoms {
-			as[a] = m&(1<<uint(i)) != 0
+	for _, sname := range subjects {
+		set := map[int64]bool{}
+		for _, a := range groups[sname] {
+			k := parsed[a].k
+			set[k-1], set[k], set[k+1] = true, true, true
 		}
-		if f.Eval(as) != g.Eval(as) {
-			var ss []string
-			for _, a := range atoms {
-				ss = append(ss, fmt.Sprintf("%s=%v", a, as[a]))
+		var vs []int64
+		for v := range set {
+			vs = append(vs, v)
+		}
+		sort.Slice(vs, func(i, j int) bool {
+			if (vs[i] < 0) != (vs[j] < 0) {
+				return vs[j] < 0
 			}
-			return false, fmt.Sprintf("%s: got %v, required %v", strings.Join(ss, ", "), f.Eval(as), g.Eval(as)), atoms
+			return vs[i] < vs[j]
+		})
+		cands[sname] = vs
+		total *= len(vs)
+		if total > 1<<20 {
+			return false, "too many cases", atoms
+		}
+	}
+	as := map[string]bool{}
+	idx := make([]int, len(subjects))
+	for {
+		for si, sname := range subjects {
+			v := cands[sname][idx[si]]
+			for _, a := range groups[sname] {
+				as[a] = parsed[a].eval(v)
+			}
+		}
+		for m := 0; m < 1<<uint(len(free)); m++ {
+			for i, a := range free {
+				as[a] = m&(1<<uint(i)) != 0
+			}
+			if f.Eval(as) != g.Eval(as) {
+				var ss []string
+				for si, sname := range subjects {
+					ss = append(ss, fmt.Sprintf("%s=%d", sname, cands[sname][idx[si]]))
+				}
+				for _, a := range free {
+					ss = append(ss, fmt.Sprintf("%s=%v", a, as[a]))
+				}
+				return false, fmt.Sprintf("%s: got %v, required %v", strings.Join(ss, ", "), f.Eval(as), g.Eval(as)), atoms
+			}
+		}
+		// next combination of subject values
+		k := 0
+		for k < len(subjects) {
+			idx[k]++
+			if idx[k] < len(cands[subjects[k]]) {
+				break
+			}
+			idx[k] = 0
+			k++
+		}
+		if k == len(subjects) {
+			break
 		}
 	}
 	return true, "", atoms
+}
+
+// Linked reports whether atom a compares the same subject with a constant as some atom of the set.
+func Linked(a *Term, set map[string]*Term) bool {
+	c, ok := parseCmp(a)
+	if !ok {
+		return false
+	}
+	for _, t := range set {
+		if d, ok := parseCmp(t); ok && d.subj == c.subj {
+			return true
+		}
+	}
+	return false
 }
 
 // DependsOn reports whether the truth value of f can change with the given atom.
